@@ -67,3 +67,38 @@ Proof. vm_compute. repeat split; reflexivity. Qed.
     RemoveTimeBucket below that symbol) is NOT proved on this model; the sequential theorems C17_seq_K1/K2 are on
     the value model of Model/Catalog.v, of which the serial schedules of this model are instances (checked above
     by evaluation only). *)
+
+(* ======================================================== the positive direction, bounded *)
+Require Import MS.Proofs.CatalogConc_inv MS.Proofs.CatalogConc_K.
+
+(** Guarded theorem, bounded instance (buckets A/1Min/G and B/1Min/G, years 2021/2022; one AddTimeBucket thread - whole
+    calls or scan/install halves - and one step-wise RemoveTimeBucket thread): for EVERY schedule, of any length, in
+    which each label is enabled where it fires - the guard [enabled]: one AddTimeBucket and one RemoveTimeBucket at a
+    time, never both below the same symbol, everything else interleaving freely - whenever all operations have
+    finished the catalog lists exactly the buckets a restart finds on disk.
+    Proof: induction over the schedule; the invariant is membership in the set RK of states reachable under the guard
+    (breadth-first search), closed under all enabled labels and consistent in every quiescent state by vm_compute. *)
+Theorem C17conc_guarded_K : forall ls, sched_ok rootK labelsK (cinit rootK) ls ->
+  let st := run_labels rootK ls in
+  all_done st = true -> map tbk_of (hlist (c_heap st)) = map tbk_of (disk_list rootK (c_world st)).
+Proof. exact (guarded_consistent rootK labelsK RK RK_closed RK_init RK_quiet RK_forget). Qed.
+Print Assumptions C17conc_guarded_K.
+
+(** Non-vacuity: Destroy(A/1Min/G) genuinely overlaps a split Create(B/1Min/G) - and the witness schedule of
+    C17conc_refuted is exactly what the guard excludes (its Create works below the symbol being destroyed). *)
+Definition kA : list byte := sbk "A/1Min/G:Symbol/Timeframe/AttributeGroup".
+Definition kB : list byte := sbk "B/1Min/G:Symbol/Timeframe/AttributeGroup".
+Definition C17conc_overlap : list label :=
+  [ LCreate kA 2021 [x00]; LBegin 1 (sbk "A/1Min/G"); LStep 1; LCreateScan 2 kB 2022 [x00]; LStep 1; LStep 1;
+    LCreateInstall 2; LStep 1; LCreate kA 2022 [x00]; LBegin 1 (sbk "B/1Min/G"); LCreateScan 2 kA 2021 [x00]; LStep 1;
+    LCreateInstall 2; LStep 1; LStep 1; LStep 1 ].
+
+Fixpoint sched_okb (s : cstate) (ls : list label) : bool :=
+  match ls with [] => true | l :: r => enabled s l && sched_okb (nstep rootK s l) r end.
+
+Example C17conc_nonvacuous :
+  sched_okb (cinit rootK) C17conc_overlap = true
+  /\ (let st := run_labels rootK C17conc_overlap in (all_done st, map tbk_of (hlist (c_heap st)))) = (true, [sb "A/1Min/G"])
+  /\ sched_okb (cinit rootK)
+       [ LCreate kA 2021 [x00]; LBegin 1 (sbk "A/1Min/G"); LStep 1; LCreate kA 2022 [x00] ] = false.
+Proof. vm_compute. repeat split; reflexivity. Qed.
